@@ -6,7 +6,13 @@
    over a model of multiprocessing.Queue (CPython 3.12 queues.py): put() takes a
    bounded semaphore released by get(); an unbounded local buffer; a feeder
    moving one item at a time into a FIFO pipe of some capacity >= 1; get(timeout)
-   receives iff the pipe is non-empty and may time out only on an empty pipe.
+   receives iff the pipe is non-empty and may time out on an empty pipe.
+   With [v_cont] (reader-lock contention) a get(timeout) may ALSO raise Empty
+   while the pipe is non-empty, provided another worker is inside get() at that
+   moment (it may be holding the queue's reader lock for the whole timeout:
+   queues.py `if not self._rlock.acquire(block, timeout): raise Empty`); the
+   holder itself then receives or sees a truly empty pipe.  "Another worker is
+   at its get()" over-approximates "another worker holds the lock".
    Items are their indices 0..n-1 (FIFO makes the queue state three counters).
    Definitions only. *)
 From Coq Require Import List Arith Bool.
@@ -23,13 +29,15 @@ Inductive wst :=
 
 Inductive act :=
 | APut | AClose | AFlush | AFeederExit | AJoinThread | ASet | AJoin (w : nat)
-| ARecv (w : nat) | ATimeout (w : nat) | AIsSet (w : nat).
+| ARecv (w : nat) | ATimeout (w : nat) | AIsSet (w : nat)
+| ACTimeout (w : nat).           (* Empty raised because the reader lock stayed taken *)
 
 Record vstate := mkV {
   v_n : nat;            (* number of items *)
   v_cap : nat;          (* Queue(maxsize): 2*par or 16*par *)
   v_pcap : nat;         (* pipe capacity in items *)
   v_fixed : bool;       (* worker protocol variant *)
+  v_cont : bool;        (* reader-lock contention timeouts possible *)
   nput : nat; npiped : nat; nrecv : nat;
   closed : bool; fdone : bool; flag : bool;
   pc : ppc;
@@ -38,10 +46,13 @@ Record vstate := mkV {
   finished : list nat              (* items whose callback completed, newest first *)
 }.
 
-Definition init (n par cap pcap : nat) (fixed : bool) : vstate :=
-  mkV n cap pcap fixed 0 0 0 false false false
+Definition init_c (n par cap pcap : nat) (fixed cont : bool) : vstate :=
+  mkV n cap pcap fixed cont 0 0 0 false false false
       (match n with O => PClose | _ => PPut end)
       (repeat (if fixed then WAtFlag else WAtGet false) par) [] [].
+
+(* the property's own quantifier: Empty only on an empty pipe *)
+Definition init (n par cap pcap : nat) (fixed : bool) : vstate := init_c n par cap pcap fixed false.
 
 Definition set_w (l : list wst) (w : nat) (x : wst) : list wst :=
   firstn w l ++ x :: skipn (S w) l.
@@ -49,15 +60,22 @@ Definition set_w (l : list wst) (w : nat) (x : wst) : list wst :=
 Definition get_w (l : list wst) (w : nat) : option wst := nth_error l w.
 
 Definition upd_pc (s : vstate) (p : ppc) : vstate :=
-  mkV (v_n s) (v_cap s) (v_pcap s) (v_fixed s) (nput s) (npiped s) (nrecv s)
+  mkV (v_n s) (v_cap s) (v_pcap s) (v_fixed s) (v_cont s) (nput s) (npiped s) (nrecv s)
       (closed s) (fdone s) (flag s) p (ws s) (started s) (finished s).
 
 Definition upd_ws (s : vstate) (l : list wst) : vstate :=
-  mkV (v_n s) (v_cap s) (v_pcap s) (v_fixed s) (nput s) (npiped s) (nrecv s)
+  mkV (v_n s) (v_cap s) (v_pcap s) (v_fixed s) (v_cont s) (nput s) (npiped s) (nrecv s)
       (closed s) (fdone s) (flag s) (pc s) l (started s) (finished s).
 
 Definition is_exited (x : option wst) : bool :=
   match x with Some (WExited _) => true | _ => false end.
+
+Definition at_get (x : option wst) : bool :=
+  match x with Some (WAtGet _) => true | _ => false end.
+
+(* some worker other than [w] is inside get() *)
+Definition other_at_get (l : list wst) (w : nat) : bool :=
+  existsb (fun h => negb (Nat.eqb h w) && at_get (nth_error l h)) (seq 0 (length l)).
 
 Definition enabled_b (s : vstate) (a : act) : bool :=
   match a with
@@ -71,6 +89,8 @@ Definition enabled_b (s : vstate) (a : act) : bool :=
   | ARecv w => match get_w (ws s) w with Some (WAtGet _) => Nat.ltb (nrecv s) (npiped s) | _ => false end
   | ATimeout w => match get_w (ws s) w with Some (WAtGet _) => Nat.eqb (nrecv s) (npiped s) | _ => false end
   | AIsSet w => match get_w (ws s) w with Some WAtFlag => true | _ => false end
+  | ACTimeout w => v_cont s && at_get (get_w (ws s) w) && Nat.ltb (nrecv s) (npiped s)
+                   && other_at_get (ws s) w
   end.
 
 Section Step.
@@ -82,27 +102,27 @@ Section Step.
     match a with
     | APut =>
         let np := S (nput s) in
-        mkV (v_n s) (v_cap s) (v_pcap s) (v_fixed s) np (npiped s) (nrecv s)
+        mkV (v_n s) (v_cap s) (v_pcap s) (v_fixed s) (v_cont s) np (npiped s) (nrecv s)
             (closed s) (fdone s) (flag s)
             (if Nat.eqb np (v_n s) then PClose else PPut) (ws s) (started s) (finished s)
     | AClose =>
-        mkV (v_n s) (v_cap s) (v_pcap s) (v_fixed s) (nput s) (npiped s) (nrecv s)
+        mkV (v_n s) (v_cap s) (v_pcap s) (v_fixed s) (v_cont s) (nput s) (npiped s) (nrecv s)
             true (fdone s) (flag s) PJoinFeeder (ws s) (started s) (finished s)
     | AFlush =>
-        mkV (v_n s) (v_cap s) (v_pcap s) (v_fixed s) (nput s) (S (npiped s)) (nrecv s)
+        mkV (v_n s) (v_cap s) (v_pcap s) (v_fixed s) (v_cont s) (nput s) (S (npiped s)) (nrecv s)
             (closed s) (fdone s) (flag s) (pc s) (ws s) (started s) (finished s)
     | AFeederExit =>
-        mkV (v_n s) (v_cap s) (v_pcap s) (v_fixed s) (nput s) (npiped s) (nrecv s)
+        mkV (v_n s) (v_cap s) (v_pcap s) (v_fixed s) (v_cont s) (nput s) (npiped s) (nrecv s)
             (closed s) true (flag s) (pc s) (ws s) (started s) (finished s)
     | AJoinThread => upd_pc s PSet
     | ASet =>
-        mkV (v_n s) (v_cap s) (v_pcap s) (v_fixed s) (nput s) (npiped s) (nrecv s)
+        mkV (v_n s) (v_cap s) (v_pcap s) (v_fixed s) (v_cont s) (nput s) (npiped s) (nrecv s)
             (closed s) (fdone s) true (PJoin 0) (ws s) (started s) (finished s)
     | AJoin w => upd_pc s (if Nat.eqb (S w) (length (ws s)) then PReturned else PJoin (S w))
     | ARecv w =>
         let i := nrecv s in
         let crash := bad i in
-        mkV (v_n s) (v_cap s) (v_pcap s) (v_fixed s) (nput s) (npiped s) (S i)
+        mkV (v_n s) (v_cap s) (v_pcap s) (v_fixed s) (v_cont s) (nput s) (npiped s) (S i)
             (closed s) (fdone s) (flag s) (pc s)
             (set_w (ws s) w (if crash then WExited 1
                              else if v_fixed s then WAtFlag else WAtGet false))
@@ -119,6 +139,14 @@ Section Step.
         upd_ws s (set_w (ws s) w
                     (if v_fixed s then WAtGet (flag s)
                      else (if flag s then WExited 0 else WAtGet false)))
+    | ACTimeout w =>
+        (* the worker cannot tell this Empty from the other one *)
+        match get_w (ws s) w with
+        | Some (WAtGet seen) =>
+            upd_ws s (set_w (ws s) w
+                        (if v_fixed s then (if seen then WExited 0 else WAtFlag) else WAtFlag))
+        | _ => s
+        end
     end.
 
   Definition run (s : vstate) (l : list act) : vstate := fold_left step l s.
@@ -128,7 +156,7 @@ End Step.
 Definition all_acts (par : nat) : list act :=
   [APut; AClose; AFlush; AFeederExit; AJoinThread; ASet]
   ++ map AJoin (seq 0 par) ++ map ARecv (seq 0 par)
-  ++ map ATimeout (seq 0 par) ++ map AIsSet (seq 0 par).
+  ++ map ATimeout (seq 0 par) ++ map AIsSet (seq 0 par) ++ map ACTimeout (seq 0 par).
 
 Definition enabled_list (s : vstate) : list act :=
   filter (enabled_b s) (all_acts (length (ws s))).
@@ -137,14 +165,15 @@ Definition act_eqb (a b : act) : bool :=
   match a, b with
   | APut, APut | AClose, AClose | AFlush, AFlush | AFeederExit, AFeederExit
   | AJoinThread, AJoinThread | ASet, ASet => true
-  | AJoin x, AJoin y | ARecv x, ARecv y | ATimeout x, ATimeout y | AIsSet x, AIsSet y => Nat.eqb x y
+  | AJoin x, AJoin y | ARecv x, ARecv y | ATimeout x, ATimeout y | AIsSet x, AIsSet y
+  | ACTimeout x, ACTimeout y => Nat.eqb x y
   | _, _ => false
   end.
 
 (* polling moves: they change no shared state while the flag is clear *)
 Definition polling (s : vstate) (a : act) : bool :=
   match a with
-  | ATimeout _ | AIsSet _ => negb (flag s)
+  | ATimeout _ | AIsSet _ | ACTimeout _ => negb (flag s)
   | _ => false
   end.
 
